@@ -131,6 +131,10 @@ class C01(engine.Property):
             st.pending_setup = gen.setup_ops(rng, cfg, st.namer)
         if st.pending_setup:
             return st.pending_setup.pop(0)
+        if getattr(st, "ended", False):
+            return None
+        if cfg.get("restarts") and rng.random() < 0.04:
+            return common.restart_op(rng)
         for _ in range(20):
             kind = gen.weighted_choice(rng, cfg["weights"])
             op = st.gen.draw(rng, st.view, st.namer, kind)
@@ -139,6 +143,14 @@ class C01(engine.Property):
         return None
 
     def execute(self, st, op):
+        if getattr(st, "ended", False):
+            return None, None
+        if op["op"] == "roundtrip":
+            r = common.inproc_restart(st, op)
+            if r == "changed":
+                st.ended = True
+            st.refresh()
+            return {"restart": r}, None
         common.probe_link_op(st, op)
         if op["op"] in ("remove_from_link", "unlink_from", "unlink", "set_end") and any(
             d.get("cls") == "HandoverVertex" for d in st.snap.values()
